@@ -140,3 +140,9 @@ Definition chk_parse_time (c : tspec * Z * Z * option Z) : bool :=
 Definition chk_time_window (c : option tspec * option tspec * Z * Z * Z * Z) : bool :=
   let '(va, vb, off, pnow, now, got) := c in window_decision va vb off pnow now =? got.
 
+(* _signed_data given a path: (bursts the file delivered, is_hashed, hash name, namespace, digests of the
+   whole content, observed) *)
+Definition chk_signed_data_path (c : list bytes * bool * bytes * bytes * list (bytes * bytes) * option bytes) : bool :=
+  let '(chunks, ih, hname, nsb, digests, got) := c in
+  obytes_eqb (signed_data_src (hash_of digests) (MPath chunks) ih hname nsb) got.
+
